@@ -24,7 +24,7 @@ from ..core import Run
 from ..corpus import consistent
 from ..digest import digest
 from ..par import pmap
-from ..shims import LoggingIterable, Tracer
+from ..shims import BudgetExceeded, cpu_budget, LoggingIterable, Tracer
 from ..tlc import run_tlc, validate_traces
 
 LEVEL = "model_checking"
@@ -280,7 +280,7 @@ def load_exec(task):
         n = 0
         with warnings.catch_warnings(record=True) as wl:
             warnings.simplefilter("always")
-            with tr:
+            with tr, cpu_budget(120):
                 try:
                     if task["many"]:
                         gen = api.load_many(path)
@@ -306,6 +306,8 @@ def load_exec(task):
                         same = digest(data) == task["singles"][0] if task["singles"] else False
                         # the yield of load_one is its return; it happens after the close
                         out = "return"
+                except BudgetExceeded:
+                    out, msg, namesfile, lineno = "other:does-not-terminate", "CPU budget exceeded", False, []
                 except Exception as exc:  # noqa: BLE001
                     out = classify_exc(exc)
                     msg = f"{type(exc).__name__}: {exc}"[:160]
